@@ -490,3 +490,233 @@ Proof.
   unfold same_series. apply forallb_forall. intros t Ht. unfold first_diff in Ed.
   pose proof (find_none _ _ Ed t Ht) as K. cbn in K. apply negb_false_iff in K. exact K.
 Qed.
+
+(* ---------------- (iii) the log lemma ---------------- *)
+(* strictly sorted lists of rationals: Qeq members are identical; same members => same list *)
+Lemma ssorted_eq l : StronglySorted Qlt l -> forall x y, In x l -> In y l -> x == y -> x = y.
+Proof.
+  induction l as [|a l IH]; intros Hs x y Hx Hy E; [destruct Hx|].
+  destruct (StronglySorted_inv Hs) as [Hs' Ha]. rewrite Forall_forall in Ha.
+  destruct Hx as [Hx|Hx], Hy as [Hy|Hy].
+  - subst. reflexivity.
+  - subst x. exfalso. pose proof (Ha y Hy) as K. rewrite E in K. exact (Qlt_irrefl _ K).
+  - subst y. exfalso. pose proof (Ha x Hx) as K. rewrite E in K. exact (Qlt_irrefl _ K).
+  - apply IH; assumption.
+Qed.
+
+Lemma ssorted_unique l : StronglySorted Qlt l -> forall l', StronglySorted Qlt l' ->
+  (forall x, In x l <-> In x l') -> l = l'.
+Proof.
+  induction l as [|a l IH]; intros Hs l' Hs' H.
+  - destruct l' as [|b l']; [reflexivity|]. exfalso. apply (proj2 (H b)). left. reflexivity.
+  - destruct l' as [|b l']; [exfalso; apply (proj1 (H a)); left; reflexivity|].
+    destruct (StronglySorted_inv Hs) as [Hsl Ha]. destruct (StronglySorted_inv Hs') as [Hsl' Hb].
+    rewrite Forall_forall in Ha, Hb.
+    assert (a = b) as ->.
+    { destruct (proj1 (H a) (or_introl eq_refl)) as [E|Ea]; [symmetry; exact E|].
+      destruct (proj2 (H b) (or_introl eq_refl)) as [E|Eb]; [exact E|].
+      exfalso. pose proof (Ha b Eb) as K1. pose proof (Hb a Ea) as K2. exact (Qlt_irrefl _ (Qlt_trans _ _ _ K1 K2)). }
+    f_equal. apply IH; [exact Hsl|exact Hsl'|]. intro x. split; intro Hx.
+    + destruct (proj1 (H x) (or_intror Hx)) as [E|K]; [|exact K]. subst x. exfalso. exact (Qlt_irrefl _ (Ha b Hx)).
+    + destruct (proj2 (H x) (or_intror Hx)) as [E|K]; [|exact K]. subst x. exfalso. exact (Qlt_irrefl _ (Hb b Hx)).
+Qed.
+
+Lemma increasing_sorted : forall log prev, increasing prev log = true -> StronglySorted Qlt (prev :: map ev_t log).
+Proof.
+  induction log as [|e r IH]; intros prev H; [constructor; constructor|].
+  cbn in H. apply andb_true_iff in H. destruct H as [H1 H2]. apply qltb_t in H1.
+  specialize (IH (ev_t e) H2). cbn [map]. constructor; [exact IH|].
+  destruct (StronglySorted_inv IH) as [_ K]. constructor; [exact H1|].
+  rewrite Forall_forall in *. intros x Hx. eapply Qlt_trans; [exact H1|apply K; exact Hx].
+Qed.
+
+(* the status map after a list of events *)
+Definition state_after (st : node -> N) (evs : list event) : node -> N :=
+  fold_left (fun st e => fupdN st (ev_u e) (ev_s e)) evs st.
+
+Definition pe (e : event) : Q * N := (ev_t e, ev_s e).
+Definition of_node (u : node) (e : event) : bool := N.eqb (ev_u e) u.
+
+Lemma project_eq tmin init log u :
+  project tmin init log u = (tmin, init u) :: map pe (filter (of_node u) log).
+Proof. reflexivity. Qed.
+
+Lemma scan_events t u : forall evs st cur, cur = st u -> (forall e, In e evs -> ev_t e <= t) ->
+  scan t cur (map pe (filter (of_node u) evs)) = state_after st evs u.
+Proof.
+  induction evs as [|e r IH]; intros st cur Hc Hle; [exact Hc|].
+  cbn [filter]. unfold of_node at 1. destruct (N.eqb (ev_u e) u) eqn:E.
+  - cbn [map]. change (scan t cur (pe e :: map pe (filter (of_node u) r))) with (scan t (if le_t t (pe e) then snd (pe e) else cur) (map pe (filter (of_node u) r))).
+    unfold le_t, pe at 1 2. cbn [fst snd]. rewrite (proj2 (qleb_t _ _) (Hle e (or_introl eq_refl))).
+    cbn [state_after fold_left]. apply IH; [|intros e' He'; apply Hle; right; exact He'].
+    unfold fupdN. apply N.eqb_eq in E. rewrite E, N.eqb_refl. reflexivity.
+  - cbn [state_after fold_left]. apply IH; [|intros e' He'; apply Hle; right; exact He'].
+    unfold fupdN. rewrite N.eqb_sym, E. exact Hc.
+Qed.
+
+Lemma project_sorted tmin init u : forall log, increasing tmin log = true -> sortedb (project tmin init log u) = true.
+Proof.
+  intros log H. pose proof (increasing_sorted log tmin H) as Hs. rewrite project_eq.
+  assert (G : forall (l : list event) p s, StronglySorted Qlt (p :: map ev_t l) -> sortedb ((p, s) :: map pe (filter (of_node u) l)) = true).
+  { induction l as [|e r IH]; intros p s Hss; [reflexivity|].
+    destruct (StronglySorted_inv Hss) as [Hs1 Hp]. cbn [map] in Hs1, Hp.
+    cbn [filter]. destruct (of_node u e).
+    - cbn [map]. change (sortedb ((p, s) :: pe e :: map pe (filter (of_node u) r))) with (Qleb p (ev_t e) && sortedb (pe e :: map pe (filter (of_node u) r))).
+      apply andb_true_iff. split; [apply qleb_t; apply Qlt_le_weak; inversion Hp; assumption|]. unfold pe at 1. apply IH. exact Hs1.
+    - apply IH. constructor; [exact (proj1 (StronglySorted_inv Hs1))|]. inversion Hp; assumption. }
+  apply G. exact Hs.
+Qed.
+
+(* the status of node u at the time of an event = its status after that event *)
+Lemma status_after_event tmin init u log : increasing tmin log = true ->
+  forall done e rest, log = done ++ e :: rest ->
+  status_at (project tmin init log u) (ev_t e) = Ok (state_after init (done ++ [e]) u).
+Proof.
+  intros Hinc done e rest El.
+  pose proof (increasing_sorted log tmin Hinc) as Hs. pose proof (project_sorted tmin init u log Hinc) as Hso.
+  rewrite El, map_app in Hs. cbn [map] in Hs.
+  (* times before e are smaller, times after are larger *)
+  assert (Hbefore : forall x, In x (tmin :: map ev_t done) -> x < ev_t e).
+  { clear - Hs. change (tmin :: map ev_t done ++ ev_t e :: map ev_t rest) with ((tmin :: map ev_t done) ++ ev_t e :: map ev_t rest) in Hs.
+    induction (tmin :: map ev_t done) as [|a l IH]; intros x Hx; [destruct Hx|].
+    cbn [app] in Hs. destruct (StronglySorted_inv Hs) as [Hs' Ha]. rewrite Forall_forall in Ha.
+    destruct Hx as [Hx|Hx]; [subst x; apply Ha; apply in_or_app; right; left; reflexivity|apply IH; assumption]. }
+  assert (Hafter : forall x, In x (map ev_t rest) -> ev_t e < x).
+  { clear - Hs. change (tmin :: map ev_t done ++ ev_t e :: map ev_t rest) with ((tmin :: map ev_t done) ++ ev_t e :: map ev_t rest) in Hs.
+    induction (tmin :: map ev_t done) as [|a l IH]; cbn [app] in Hs.
+    - destruct (StronglySorted_inv Hs) as [_ Ha]. rewrite Forall_forall in Ha. exact Ha.
+    - apply IH. exact (proj1 (StronglySorted_inv Hs)). }
+  rewrite project_eq in *. rewrite (status_at_scan (tmin, init u) _ (ev_t e) (init u) Hso).
+  2:{ cbn [fst]. apply Qlt_le_weak. apply Hbefore. left. reflexivity. }
+  f_equal.
+  change (scan (ev_t e) (init u) ((tmin, init u) :: map pe (filter (of_node u) log)))
+    with (scan (ev_t e) (if le_t (ev_t e) (tmin, init u) then init u else init u) (map pe (filter (of_node u) log))).
+  replace (if le_t (ev_t e) (tmin, init u) then init u else init u) with (init u) by (destruct (le_t (ev_t e) (tmin, init u)); reflexivity).
+  rewrite El. replace (done ++ e :: rest) with ((done ++ [e]) ++ rest) by (rewrite <- app_assoc; reflexivity).
+  rewrite filter_app, map_app, scan_app.
+  rewrite (scan_events (ev_t e) u (done ++ [e]) init (init u) eq_refl).
+  2:{ intros e' He'. apply in_app_or in He'. destruct He' as [He'|[He'|[]]]; [|subst; apply Qle_refl].
+      apply Qlt_le_weak. apply Hbefore. right. apply in_map. exact He'. }
+  apply scan_later. intros x Hx. apply in_map_iff in Hx. destruct Hx as [e' [Ex He']]. apply filter_In in He'. destruct He' as [He' _].
+  subst x. unfold le_t, pe. cbn [fst]. apply qleb_f. apply Hafter. apply in_map. exact He'.
+Qed.
+
+Lemma status_at_tmin tmin init u log : increasing tmin log = true ->
+  status_at (project tmin init log u) tmin = Ok (init u).
+Proof.
+  intro Hinc. pose proof (project_sorted tmin init u log Hinc) as Hso. rewrite project_eq in *.
+  rewrite (status_at_scan (tmin, init u) _ tmin (init u) Hso); [|cbn; apply Qle_refl]. f_equal.
+  change (scan tmin (init u) ((tmin, init u) :: map pe (filter (of_node u) log)))
+    with (scan tmin (if le_t tmin (tmin, init u) then init u else init u) (map pe (filter (of_node u) log))).
+  replace (if le_t tmin (tmin, init u) then init u else init u) with (init u) by (destruct (le_t tmin (tmin, init u)); reflexivity).
+  apply scan_later. intros x Hx. apply in_map_iff in Hx. destruct Hx as [e' [Ex He']]. apply filter_In in He'. destruct He' as [He' _].
+  subst x. unfold le_t, pe. cbn [fst]. apply qleb_f.
+  pose proof (increasing_sorted log tmin Hinc) as Hs. destruct (StronglySorted_inv Hs) as [_ K]. rewrite Forall_forall in K.
+  apply K. apply in_map. exact He'.
+Qed.
+
+Lemma assoc_map_nodes (f : node -> history) : forall nodes u, In u nodes -> assoc (map (fun v => (v, f v)) nodes) u = Some (f u).
+Proof.
+  induction nodes as [|v l IH]; intros u Hu; [destruct Hu|]. cbn. destruct (N.eqb v u) eqn:E.
+  - apply N.eqb_eq in E. subst. reflexivity.
+  - destruct Hu as [Hu|Hu]; [subst; rewrite N.eqb_refl in E; discriminate|apply IH; exact Hu].
+Qed.
+
+Lemma log_hist_of nodes ps tmin init log u : In u nodes ->
+  hist_of (log_inv nodes ps tmin init log) u = Ok (project tmin init log u).
+Proof.
+  intro Hu. unfold hist_of, log_inv. cbn [iv_hist]. rewrite (assoc_map_nodes (project tmin init log) nodes u Hu). reflexivity.
+Qed.
+
+(* the well-formedness of a log: events concern listed nodes and possible statuses, initial statuses possible *)
+Definition log_okb (nodes : list node) (ps : list N) (tmin : Q) (init : node -> N) (log : list event) : bool :=
+  increasing tmin log && forallb (fun e => mem (ev_u e) nodes && mem (ev_s e) ps) log && forallb (fun u => mem (init u) ps) nodes
+  && negb (match nodes with [] => true | _ => false end).
+
+Lemma memb_In x l : mem x l = true <-> In x l.
+Proof.
+  unfold mem. rewrite existsb_exists. split.
+  - intros [y [Hy He]]. apply N.eqb_eq in He. subst. exact Hy.
+  - intros H. exists x. split; [exact H|apply N.eqb_refl].
+Qed.
+
+Lemma count_status_eq nodes ps tmin init log t (st : node -> N) s :
+  (forall u, In u nodes -> status_at (project tmin init log u) t = Ok (st u)) ->
+  forall l, incl l nodes -> count_at (log_inv nodes ps tmin init log) l t s = count_status l st s.
+Proof.
+  intros H l Hl. unfold count_at, count_status. f_equal. f_equal.
+  induction l as [|u l IH]; [reflexivity|]. cbn [filter].
+  assert (Hu : In u nodes) by (apply Hl; left; reflexivity).
+  unfold status_isb at 1. unfold node_status. rewrite (log_hist_of nodes ps tmin init log u Hu). cbn [rbind]. rewrite (H u Hu).
+  rewrite IH; [reflexivity|]. intros x Hx. apply Hl. right. exact Hx.
+Qed.
+
+Lemma log_rows_spec nodes ps tmin init log : increasing tmin log = true ->
+  forall rest done, log = done ++ rest ->
+  log_rows nodes ps (state_after init done) rest =
+  map (fun e => (ev_t e, map (count_at (log_inv nodes ps tmin init log) nodes (ev_t e)) ps)) rest.
+Proof.
+  intro Hinc. induction rest as [|e r IH]; intros done El; [reflexivity|].
+  cbn [log_rows map]. f_equal.
+  - f_equal. apply map_ext. intro s. symmetry.
+    apply (count_status_eq nodes ps tmin init log (ev_t e) (fupdN (state_after init done) (ev_u e) (ev_s e)) s); [|apply incl_refl].
+    intros u Hu. rewrite (status_after_event tmin init u log Hinc done e r El). f_equal.
+    unfold state_after. rewrite fold_left_app. reflexivity.
+  - replace (fupdN (state_after init done) (ev_u e) (ev_s e)) with (state_after init (done ++ [e])).
+    2:{ unfold state_after. rewrite fold_left_app. reflexivity. }
+    apply IH. rewrite El, <- app_assoc. reflexivity.
+Qed.
+
+(* (iii): the summary of the per-node projections of a log is the array of its running counts *)
+Lemma log_lemma nodes ps tmin init log : log_okb nodes ps tmin init log = true ->
+  summary (log_inv nodes ps tmin init log) None = Ok (log_arrays nodes ps tmin init log).
+Proof.
+  unfold log_okb. rewrite !andb_true_iff. intros [[[Hinc Hev] Hinit] Hne].
+  rewrite forallb_forall in Hev, Hinit.
+  set (iv := log_inv nodes ps tmin init log).
+  assert (LH : forall u, In u nodes -> hist_of iv u = Ok (project tmin init log u)) by (intros; apply log_hist_of; assumption).
+  assert (Hnodes : nodes <> []) by (destruct nodes; [discriminate|discriminate]).
+  assert (Hwf : forall u, In u nodes -> exists h, hist_of iv u = Ok h /\ wf_histb ps tmin h = true).
+  { intros u Hu. exists (project tmin init log u). split; [apply LH; exact Hu|].
+    pose proof (project_sorted tmin init u log Hinc) as Hso. rewrite project_eq in *. unfold wf_histb.
+    cbn [fst]. rewrite (proj2 (qeqb_t tmin tmin) (Qeq_refl _)), Hso. cbn [andb forallb snd]. rewrite (Hinit u Hu). cbn [andb].
+    apply forallb_forall. intros x Hx. apply in_map_iff in Hx. destruct Hx as [e [Ex He]]. apply filter_In in He. destruct He as [He _].
+    subst x. cbn [snd pe]. pose proof (Hev e He) as K. apply andb_true_iff in K. exact (proj2 K). }
+  destruct (summary_spec iv ps tmin nodes eq_refl Hnodes Hwf) as [rows [Er [Rne [Rs [R4 [R5 R6]]]]]].
+  rewrite summary_all. change (iv_nodes iv) with nodes. rewrite Er. f_equal.
+  pose proof (increasing_sorted log tmin Hinc) as Hs.
+  (* the times *)
+  assert (Et : map fst rows = tmin :: map ev_t log).
+  { apply ssorted_unique; [exact Rs|exact Hs|]. intro t. split.
+    - intro Ht. destruct (R5 t Ht) as [u [h [x [Hu [Eh [Hx Ex]]]]]].
+      rewrite (LH u Hu) in Eh. inversion Eh; subst h. rewrite project_eq in Hx.
+      destruct Hx as [Hx|Hx]; [subst x; left; exact Ex|]. apply in_map_iff in Hx. destruct Hx as [e [Ee He]]. apply filter_In in He.
+      right. apply in_map_iff. exists e. split; [subst x; exact Ex|exact (proj1 He)].
+    - intro Ht.
+      assert (exists u h x, In u nodes /\ hist_of iv u = Ok h /\ In x h /\ fst x = t) as [u [h [x [Hu [Eh [Hx Ex]]]]]].
+      { destruct Ht as [Ht|Ht].
+        - destruct nodes as [|u0 l0]; [contradiction|]. exists u0, (project tmin init log u0), (tmin, init u0).
+          split; [left; reflexivity|]. split; [apply LH; left; reflexivity|]. split; [rewrite project_eq; left; reflexivity|exact Ht].
+        - apply in_map_iff in Ht. destruct Ht as [e [Ee He]]. pose proof (Hev e He) as K. apply andb_true_iff in K. destruct K as [K _]. apply memb_In in K.
+          exists (ev_u e), (project tmin init log (ev_u e)), (pe e). split; [exact K|]. split; [apply LH; exact K|].
+          split; [|exact Ee]. rewrite project_eq. right. apply in_map. apply filter_In. split; [exact He|]. unfold of_node. apply N.eqb_refl. }
+      destruct (R6 u h x Hu Eh Hx) as [t' [Ht' Et']]. rewrite Ex in Et'.
+      assert (In t' (tmin :: map ev_t log)) as Hin'.
+      { destruct (R5 t' Ht') as [u' [h' [x' [Hu' [Eh' [Hx' Ex']]]]]].
+        rewrite (LH u' Hu') in Eh'. inversion Eh'; subst h'. rewrite project_eq in Hx'.
+        destruct Hx' as [Hx'|Hx']; [subst x'; left; exact Ex'|]. apply in_map_iff in Hx'. destruct Hx' as [e [Ee He]]. apply filter_In in He.
+        right. apply in_map_iff. exists e. split; [subst x'; exact Ex'|exact (proj1 He)]. }
+      assert (In t (tmin :: map ev_t log)) as Hin.
+      { destruct (R5 t' Ht') as [_ _]. rewrite <- Ex. rewrite (LH u Hu) in Eh. inversion Eh; subst h. rewrite project_eq in Hx.
+        destruct Hx as [Hx|Hx]; [subst x; left; reflexivity|]. apply in_map_iff in Hx. destruct Hx as [e [Ee He]]. apply filter_In in He.
+        right. apply in_map_iff. exists e. split; [subst x; reflexivity|exact (proj1 He)]. }
+      rewrite <- (ssorted_eq _ Hs t' t Hin' Hin Et'). exact Ht'. }
+  (* the rows are determined by their times *)
+  assert (Erows : rows = map (fun t => (t, map (count_at iv nodes t) ps)) (map fst rows)).
+  { rewrite map_map. rewrite <- (map_id rows) at 1. apply map_ext_in. intros [t cs] Hin. cbn [fst]. f_equal. exact (proj2 (R4 t cs Hin)). }
+  rewrite Erows, Et. unfold log_arrays. cbn [map]. f_equal.
+  - f_equal. apply map_ext. intro s.
+    apply (count_status_eq nodes ps tmin init log tmin init s); [|apply incl_refl].
+    intros u Hu. apply status_at_tmin. exact Hinc.
+  - rewrite map_map. symmetry. apply (log_rows_spec nodes ps tmin init log Hinc log [] eq_refl).
+Qed.
